@@ -111,6 +111,19 @@ func (f *flattener) applies(obj *graphql.Object, fragment *graphql.Fragment) (bo
 // selections of each fragment, but does not descend down recursively into those
 // selections.
 func (f *flattener) flattenFragments(selectionSet *graphql.SelectionSet, typ *graphql.Object, target *[]*graphql.Selection) error {
+	return f.flattenFragmentsOnce(selectionSet, typ, target, make(map[*graphql.SelectionSet]struct{}))
+}
+
+// flattenFragmentsOnce is flattenFragments; seen holds the selection sets that
+// have been inlined already. A fragment spread several times contributes its
+// selections once: inlining it again would add nothing but copies, and
+// fragments that spread each other twice would be inlined exponentially often.
+func (f *flattener) flattenFragmentsOnce(selectionSet *graphql.SelectionSet, typ *graphql.Object, target *[]*graphql.Selection, seen map[*graphql.SelectionSet]struct{}) error {
+	if _, ok := seen[selectionSet]; ok {
+		return nil
+	}
+	seen[selectionSet] = struct{}{}
+
 	// Start with the non-fragment selections. A selection excluded by its
 	// directives contributes nothing, not even to another selection with the
 	// same alias.
@@ -138,7 +151,7 @@ func (f *flattener) flattenFragments(selectionSet *graphql.SelectionSet, typ *gr
 			return err
 		}
 		if ok {
-			if err := f.flattenFragments(fragment.SelectionSet, typ, target); err != nil {
+			if err := f.flattenFragmentsOnce(fragment.SelectionSet, typ, target, seen); err != nil {
 				return err
 			}
 		}
